@@ -7,7 +7,7 @@ RUNS = {"quick": 28, "thorough": 600}
 RULE = (
     "same container generator as C18; 1-3 sources (dipoles; uniform/Gaussian plane sources on isotropic scenes) whose boxes are drawn per axis "
     "from the interval relations {inside, equal, containing, partial, touching, disjoint} with respect to a device (half of the sources are forced "
-    "strictly inside a device), 0-2 detectors; after every APPLY each source/detector that truly intersects a device is compared leaf by leaf with "
+    "strictly inside a device), every fourth run also a ModePlaneSource on a full transverse plane cutting a device (mostly over a conductive background), 0-2 detectors; after every APPLY each source/detector that truly intersects a device is compared leaf by leaf with "
     "a copy re-applied against the current arrays. non-trivial = at least one intersecting object compared; distinct = as C18 x relation tuples"
 )
 REAL = ["place_objects", "apply_params", "SimulationObject.check_overlap", "Source.apply / Detector.apply"]
@@ -15,7 +15,7 @@ STUB = []
 ASSUMPTIONS = ["float64, 1e-12; objects carry no random offsets, so the PRNG key passed to apply is irrelevant", "reference = the object's own public apply() against the post-device arrays"]
 TECHNIQUE = "deterministic simulation: stale-derived-state check after every operation of a seeded apply/run history"
 LEVEL_TEXT = "Seeded exploration of overlap relations x application histories; generic pytree comparison, no field names."
-LEVEL_NOTE = "float64 CPU; mode sources/detectors (mode solver) not generated"
+LEVEL_NOTE = "float64 CPU; mode overlap detectors not generated (mode sources are)"
 
 
 def generate(rng, tier, index):
